@@ -73,12 +73,8 @@ Section Glue.
     | FUEL => MFUEL
     end.
 
-  (* find(): matcher.find(&slice[pos..]) offset by pos *)
-  Definition ml_find (c : core) (s : bytes) : option (nat * nat) :=
-    match m_find M (skipn (pos c) s) with
-    | Some (a, b) => Some (a + pos c, b + pos c)
-    | None => None
-    end.
+  (* find(): matcher.find_at(slice, pos) *)
+  Definition ml_find (c : core) (s : bytes) : option (nat * nat) := m_find_at M s (pos c).
 
   (* advance(range) *)
   Definition ml_advance (c : core) (s : bytes) (rs re : nat) : core :=
